@@ -445,5 +445,93 @@ KNOWN_PREDICATES.update({"float_equal_points_hash_differently": _f16,
                          "float_equal_instants_compare_unequal": _f17})
 
 
+class Derived(Op):
+    """Values DERIVED from a point that has already been hashed, compared and printed (an object with history):
+    every public operation that returns a TimePoint - adding years / months / exact durations, re-zoning,
+    changing the representation, copies through recurrences - must return a value that equals, and hashes like,
+    the same value built afresh from its fields."""
+    prop = PROP
+    name = "derived"
+    model = False
+
+    STEPS = ["+P1Y", "-P3Y", "+P1M", "-P13M", "+P1D", "+PT1H", "-PT1S", "+P1Y1M", "+P4Y", "utc", "tz+0530", "tz-0100", "cal",
+             "ord", "week", "addmonths1", "addmonths-12", "sub0", "first_after", "+P0Y"]
+
+    def gen(self, rng, tier, boost):
+        n = 400 * boost if tier == "quick" else 4000 * boost
+        for _ in range(n):
+            m = gens.mode(rng)
+            t = T.gen_tp(rng, m) if rng.random() < 0.6 else T.gen_year_edge_tp(rng, m)
+            if abs(t[1]) > 9000:
+                continue
+            k = rng.randint(2, 5)
+            yield (m, t, tuple(rng.choice(self.STEPS) for _ in range(k)))
+
+    def line(self, a):
+        return "derived %s %s %s" % (a[0], T.tp_str(a[1]), " ".join(a[2]))
+
+    @staticmethod
+    def apply(p, step):
+        from metomi.isodatetime.data import Duration, TimeZone, TimeRecurrence
+        if step[0] in "+-" and step[1] == "P":
+            from metomi.isodatetime.parsers import DurationParser
+            d = DurationParser().parse(step[1:])
+            return p + d if step[0] == "+" else p - d
+        if step == "utc":
+            return p.to_utc()
+        if step.startswith("tz"):
+            sg = -1 if step[2] == "-" else 1
+            return p.to_time_zone(TimeZone(hours=sg * int(step[3:5]), minutes=sg * int(step[5:7])))
+        if step == "cal":
+            return p.to_calendar_date()
+        if step == "ord":
+            return p.to_ordinal_date()
+        if step == "week":
+            return p.to_week_date()
+        if step.startswith("addmonths"):
+            return p.add_months(int(step[9:]))
+        if step == "sub0":
+            return p - Duration(days=0)
+        if step == "first_after":
+            q = TimeRecurrence(start_point=p, duration=Duration(hours=6)).get_first_after(p)
+            return q if q is not None else p
+        raise ValueError(step)
+
+    def impl(self, a):
+        m, t, steps = a
+        set_mode(m)
+        p = T.mk_tp(t)
+        problems = []
+        for i, step in enumerate(steps):
+            # give the current value a history: hash it, compare it, print it
+            hash(p), p == p
+            try:
+                str(p)
+            except OverflowError:     # a negative year without expanded digits cannot be printed (by design)
+                pass
+            q = self.apply(p, step)
+            fresh = T.mk_tp(T.tp_tuple(q))
+            if not (q == fresh and fresh == q):
+                problems.append("step %d %s: result != the same fields built afresh" % (i, step))
+            if hash(q) != hash(fresh):
+                problems.append("step %d %s: result hashes unlike the same fields built afresh" % (i, step))
+            try:
+                if q.num_expanded_year_digits == fresh.num_expanded_year_digits and str(q) != str(fresh):
+                    problems.append("step %d %s: result prints %s, built afresh %s" % (i, step, q, fresh))
+            except OverflowError:
+                pass
+            if len({q, fresh}) != 1:
+                problems.append("step %d %s: set() keeps both" % (i, step))
+            p = q
+        return T.canon_tp(p) + (" PROBLEMS: " + "; ".join(problems[:3]) if problems else "")
+
+    def oracle(self, a, out):
+        if "PROBLEMS" in out or out.startswith(("err", "EXC", "Timeout")):
+            return "%s: %s" % (self.line(a), out)
+
+    def label(self, a):
+        return "derived/%s/%s" % (a[0], a[1][0])
+
+
 def ops():
-    return [Cmp(), HashEq(), Pool(), SubSign(), CmpFrac(), CmpQ(), HashQ()]
+    return [Cmp(), HashEq(), Pool(), SubSign(), CmpFrac(), CmpQ(), HashQ(), Derived()]
